@@ -3,6 +3,7 @@ package props
 import (
 	"bytes"
 	"fmt"
+	"io"
 	"strings"
 	"time"
 	"unicode"
@@ -195,6 +196,19 @@ func ttxChars(runs []ttxRun) string {
 		}
 	}
 	return b.String()
+}
+
+// ttxBlanks counts the blanks of a row's text
+func ttxBlanks(runs []ttxRun) int {
+	n := 0
+	for _, r := range runs {
+		for _, ch := range r.Text {
+			if ch == ' ' {
+				n++
+			}
+		}
+	}
+	return n
 }
 
 func hasParityMarker(runs []ttxRun) bool {
@@ -606,6 +620,11 @@ func ttxCompare(exp, got []ttxExpCue) string {
 				if a, b := ttxChars(er[j]), ttxChars(g.rows[j]); a != b {
 					return fmt.Sprintf("cue %d line %d (row with parity errors): characters %q, transmitted %q", k, j, b, a)
 				}
+				// blanks next to a run boundary may go, but none comes from nowhere: a cell failing parity contributes
+				// no text, not even a blank
+				if a, b := ttxBlanks(er[j]), ttxBlanks(g.rows[j]); b > a {
+					return fmt.Sprintf("cue %d line %d (row with parity errors): %d blanks in the text returned, %d were transmitted with correct parity: a cell failing parity has become a blank", k, j, b, a)
+				}
 				continue
 			}
 			if a, b := ttxCanonRuns(er[j]), ttxCanonRuns(g.rows[j]); a != b {
@@ -630,7 +649,13 @@ func c06Run(c *fw.Ctx) fw.Outcome {
 	key := fw.HashBytes(s.data)
 	var got *astisub.Subtitles
 	var err error
-	if p := guard(func() { got, err = astisub.ReadFromTeletext(bytes.NewReader(s.data), s.opts) }); p != "" {
+	// from a file-like reader that can seek, or (every other stream) from one that cannot, as a pipe or a socket would be
+	var src io.Reader = bytes.NewReader(s.data)
+	if c.Idx%2 == 1 {
+		src = struct{ io.Reader }{bytes.NewReader(s.data)}
+		c.Count("streams_read_from_a_reader_that_cannot_seek", 1)
+	}
+	if p := guard(func() { got, err = astisub.ReadFromTeletext(src, s.opts) }); p != "" {
 		return fw.Bad(key, fmt.Sprintf("%x", s.data), "teletext reader panicked (%s, options %+v): %s", s.feature, s.opts, p)
 	}
 	if err != nil {
